@@ -585,6 +585,13 @@ static void exec_cmd(toks *t) {
           }
           if (cur > maxline) maxline = cur;
           ob_printf(&OUT, "{\"rc\":0,\"n\":%lu,\"magic\":%d,\"utf8\":%d,\"maxline\":%ld,\"cif11chars\":%d,\"lines\":%ld,\"cr\":%d}", (unsigned long) n, magic, utf8ok, maxline, c11, nlines, hascr); } return; }
+    if (strcmp(c, "parse.reuse") == 0) { /* parse.reuse C B opts...: parse into the (empty) CIF of the slot, dump it, then destroy every block again */
+        NEED(3); { int ci = slot(t->tok[1], 'C', NCIF); cif_block_tp **bs = NULL; int i;
+          if (ci < 0 || !CIFS[ci]) { ob_puts(&OUT, "ERR cif slot"); return; }
+          cmd_parse(t);
+          if (OUT.n && OUT.s[OUT.n - 1] == '}') { OUT.n -= 1; OUT.s[OUT.n] = 0; ob_puts(&OUT, ",\"dump\":"); dump_cif(&OUT, CIFS[ci]); ob_putc(&OUT, '}'); }
+          if (cif_get_all_blocks(CIFS[ci], &bs) == CIF_OK) { for (i = 0; bs[i]; i++) (void) cif_container_destroy(bs[i]); free(bs); }
+        } return; }
     if (strcmp(c, "parse") == 0) { cmd_parse(t); return; }
     if (strcmp(c, "walk") == 0) { NEED(2); cmd_walk(t); return; }
     if (strcmp(c, "write") == 0) { NEED(3); cmd_write(t); return; }
